@@ -276,9 +276,7 @@ def subterms(t):
     elif c is Contains:
         yield from subterms(t.sub)
         yield from subterms(t.s)
-    elif c is Agg:
-        if t.target is not None:
-            yield from subterms(t.target)
+    # aggregates: neither target nor body are descended into (they live in the aggregate's own scope)
 
 
 def vars_of(t, into_aggs=False):
@@ -287,7 +285,7 @@ def vars_of(t, into_aggs=False):
         if s.__class__ is Var and s.name not in out:
             out.append(s.name)
         elif into_aggs and s.__class__ is Agg:
-            for l in s.body:
+            for l in list(s.body) + ([s.target] if s.target is not None else []):
                 for v in vars_of(l, True):
                     if v not in out:
                         out.append(v)
